@@ -74,6 +74,22 @@ def make_universe():
             I.env = saved
         return I.call_spec(I.cset.specs['push_rev'], [stack, a, b, L], {})
     U.extend_reversed_idiom = extend_reversed
+
+    def extend_forward(I, sn, stack, gen, L):
+        """stack.extend((a, b, x) for x in L)  ->  push_fwd(stack, a, b, L)"""
+        elt = gen.elt
+        tgt = gen.target
+        if not (isinstance(elt, ast.Tuple) and len(elt.elts) == 3 and isinstance(tgt, ast.Name)
+                and isinstance(elt.elts[2], ast.Name) and elt.elts[2].id == tgt.id):
+            raise OutsideSubset('extend(genexpr) shape')
+        saved = I.env
+        I.env = gen.env
+        try:
+            a, b = I.ev(elt.elts[0]), I.ev(elt.elts[1])
+        finally:
+            I.env = saved
+        return I.call_spec(I.cset.specs['push_fwd'], [stack, a, b, L], {})
+    U.extend_forward_idiom = extend_forward
     return U
 
 
